@@ -61,6 +61,14 @@ qstr __CPROVER_uninterpreted_dom_text(qdom e);
 qdom __CPROVER_uninterpreted_dom_first_child(qdom e, qstr tag, qstr ns);
 qdom __CPROVER_uninterpreted_dom_next_sibling(qdom e, qstr tag, qstr ns);
 static inline bool qdom_isNull(qdom e) { return e == 0; }
+/* elementsByTagNameNS(ns, tag): the matching DESCENDANTS in document order, as an opaque list; at(i) is null (index out of
+   range) or an element with that tag and namespace.  Nothing relates it to firstChildElement: a descendant need not be a child. */
+typedef int qnodelist;
+qnodelist __CPROVER_uninterpreted_dom_descendants(qdom e, qstr ns, qstr tag);
+qdom __CPROVER_uninterpreted_nodelist_at(qnodelist l, int i);
+static inline qnodelist qdom_elementsByTagNameNS(qdom e, qstr ns, qstr tag) { return __CPROVER_uninterpreted_dom_descendants(e, ns, tag); }
+static inline qdom qnodelist_at(qnodelist l, int i) { return i < 0 ? 0 : __CPROVER_uninterpreted_nodelist_at(l, i); }   /* tag / namespace of the result: see qdom_elementsByTagNameNS_first */
+
 static inline qstr qdom_tagName(qdom e) { return e == 0 ? 0 : __CPROVER_uninterpreted_dom_tag(e); }
 static inline qstr qdom_namespaceURI(qdom e) { return e == 0 ? 0 : __CPROVER_uninterpreted_dom_ns(e); }
 static inline qstr qdom_attribute(qdom e, qstr name) { return e == 0 ? 0 : __CPROVER_uninterpreted_dom_attr(e, name); }
